@@ -22,8 +22,22 @@ def run(chk, unit="asmjit/x86/x86emithelper.cpp", rule="R-CVT-DIRECTION"):
     chk.need(fns, "x86 emit_arg_move not found")
     fn = fns[0]
 
+    bool_inits = {}
+    for d_ in fn.ex.values():
+        if d_["k"] == "decl":
+            for v_ in d_["vars"]:
+                if v_.get("init") is not None and "bool" in (v_.get("ty") or ""):
+                    bool_inits[v_["did"]] = v_["init"]
+    reassigned = {(fn.e(fn.strip(y["lhs"])) or {}).get("did") for y in fn.ex.values() if y["k"] == "binop" and y["op"].endswith("=") and y["op"] not in ("==", "!=", "<=", ">=")}
+
     def edge(b, si, atom, holds):
         x = fn.e(atom)
+        if x is not None and x["k"] == "ref" and x.get("did") in bool_inits and x["did"] not in reassigned and holds:
+            # `const bool is_f64_to_f32 = dst == .. && src == ..; if (is_f64_to_f32)`: the initialiser holds
+            return edge(b, si, fn.strip(bool_inits[x["did"]]), True)
+        if x is not None and x["k"] == "binop" and x["op"] == "&&" and holds:
+            # a named conjunction (`const bool is_f64_to_f32 = a == .. && b == ..`) that holds: both sides hold
+            return list(edge(b, si, fn.strip(x["lhs"]), True)) + list(edge(b, si, fn.strip(x["rhs"]), True))
         if x is not None and x["k"] == "binop" and x["op"] == "==" and holds:
             for u, w in ((x["lhs"], x["rhs"]), (x["rhs"], x["lhs"])):
                 ux, wx = fn.e(fn.strip(u)), fn.e(fn.strip(w))
